@@ -421,6 +421,14 @@ class Report:
         os.makedirs(EVIDENCE, exist_ok=True)
         with open(os.path.join(EVIDENCE, self.pid + ".json"), "w") as f:
             json.dump(ev, f, indent=1, default=str)
+        if not self.violations:
+            # no stale replay of an earlier run of this property/seed
+            import glob
+            for old in glob.glob(os.path.join(REPLAYS, "%s-%d-*.json" % (self.pid, self.seed))):
+                try:
+                    os.remove(old)
+                except OSError:
+                    pass
         seen = set()
         for key, text in self.known:
             if key not in seen:
